@@ -26,7 +26,11 @@ RULE = ('case = (n records, position k of the faulty record, fault kind, format,
         'k on). The extraction tool run on the same file must print "Error detected in record k". Distinct by construction.')
 ASSUMPTIONS = ['vmon/ref/codec.py, vmon/ref/blocking.py build the files and the expected dicts', 'tool run in-process with out_encoding utf8']
 KINDS = ('truncated_record', 'oversized_length', 'undecodable_mti', 'unknown_bitmap_bit', 'bad_field_length', 'bad_typed_value',
-         'bad_pds_content', 'bad_icc_content', 'trailing_bytes', 'bad_decimal_value', 'short_message', 'element_removed_from_used_config')
+         'bad_pds_content', 'bad_icc_content', 'trailing_bytes', 'bad_decimal_value', 'short_message', 'element_removed_from_used_config',
+         'unknown_bit_above_all_data', 'data_ends_at_field_boundary')
+# faults built from the message rather than from its wire image
+FROM_MESSAGE = ('unknown_bit_above_all_data', 'data_ends_at_field_boundary')
+ENCS = ('latin_1', 'cp500', 'ascii')
 FRAMING = ('truncated_record', 'oversized_length')
 # how the caller walks the reader: the statement is about iteration, however it is spelled
 CONSUME = ('for', 'for', 'next_only', 'list', 'next_then_for', 'next2_then_list', 'islice_then_for', 'iter_twice')
@@ -70,6 +74,8 @@ def faulty_wire(kind, wire, enc):
     """Turn a good wire image (DE2, DE3, DE4, DE12, DE48, DE55, DE71[, DE72]) into one with the named message-level fault."""
     hdr = 20
     if kind == 'undecodable_mti':
+        if enc == 'ascii':
+            return b'\xb1\xc2\xf3\xf4' + wire[4:]      # four bytes the codec cannot decode at all
         return 'AB12'.encode(enc) + wire[4:]
     if kind == 'unknown_bitmap_bit':
         bm = bytearray(wire[4:20])
@@ -104,6 +110,31 @@ def faulty_wire(kind, wire, enc):
     raise ValueError(kind)
 
 
+def _set_bit(wire, bit):
+    bm = bytearray(wire[4:20])
+    bm[(bit - 1) // 8] |= 0x80 >> ((bit - 1) % 8)
+    if bit > 64:
+        bm[0] |= 0x80
+    return wire[:4] + bytes(bm) + wire[20:]
+
+
+def fault_from_message(kind, msg, cfg, enc):
+    """
+    Faults that sit AFTER the last byte of data.
+      unknown_bit_above_all_data : the bitmap flags an element without configuration that lies above every element present
+      data_ends_at_field_boundary: the bitmap flags a configured element, but the record ends exactly where it would start
+    """
+    msg = dict(msg)
+    if kind == 'unknown_bit_above_all_data':
+        u = max(b for b in range(2, 128) if str(b) not in cfg)
+        for key in [key for key in msg if key.startswith('DE') and int(key[2:]) > u]:
+            del msg[key]
+        return _set_bit(ref.encode(msg, cfg, enc), u)
+    last = max(int(key[2:]) for key in msg if key.startswith('DE'))
+    del msg['DE%d' % last]
+    return _set_bit(ref.encode(msg, cfg, enc), last)
+
+
 def cases(ctx):
     max_n = 10 if ctx.tier == 'quick' else 40
     ns = list(range(1, max_n + 1)) if ctx.tier == 'quick' else list(range(1, 41)) + [64, 100, 257]
@@ -113,14 +144,14 @@ def cases(ctx):
         for k in range(1, n + 1):
             for kind in KINDS:
                 for fmt in ('vbs', '1014'):
-                    for enc in ('latin_1', 'cp500'):
+                    for enc in ENCS:
                         i += 1
                         total += 1
                         if ctx.mine(i):
                             yield {'n': n, 'k': k, 'fault': kind, 'fmt': fmt, 'enc': enc,
                                    'consume': CONSUME[(n + k + len(kind) + i) % len(CONSUME)]}
     if ctx.shard == 0:
-        ctx.exhaustive_subspace('n in %s x every k x %d fault kinds x {vbs,1014} x {latin_1,cp500}' % (ns, len(KINDS)), total)
+        ctx.exhaustive_subspace('n in %s x every k x %d fault kinds x {vbs,1014} x {latin_1,cp500,ascii}' % (ns, len(KINDS)), total)
 
 
 def judge(ctx, case):
@@ -146,10 +177,12 @@ def judge(ctx, case):
         wires = [ref.encode(x, cfg, enc) for x in msgs]
         ctx.count('files read under a caller-supplied configuration')
     else:
-        wires = [ref.encode(good_message(rng, enc, i), cfg, enc) for i in range(n)]
+        msgs = [good_message(rng, enc, i) for i in range(n)]
+        wires = [ref.encode(x, cfg, enc) for x in msgs]
     expect = [ref.decode_strict(w, cfg, enc) for w in wires[:k - 1]]
     ctx.case_done(nontrivial=True, enumerated=True)
     ctx.seen('fault kinds', kind)
+    ctx.seen('codecs', enc)
     ctx.seen('fault positions k', k)
     if kind in FRAMING:
         head = refb.vbs(wires[:k - 1])[:-4]
@@ -186,7 +219,7 @@ def judge(ctx, case):
             stream = head + rec_k + refb.vbs(wires[k:])
             want_ctx_exact = None
     else:
-        bad = faulty_wire(kind, wires[k - 1], enc)
+        bad = fault_from_message(kind, msgs[k - 1], cfg, enc) if kind in FROM_MESSAGE else faulty_wire(kind, wires[k - 1], enc)
         recs = wires[:k - 1] + [bad] + wires[k:]
         stream = refb.vbs(recs)
         head = refb.vbs(wires[:k - 1])[:-4]
@@ -335,7 +368,8 @@ def canaries(ctx):
     for kind in KINDS:
         if kind in FRAMING or kind == 'element_removed_from_used_config':
             continue            # (the latter changes the configuration, not the bytes)
-        bad = faulty_wire(kind, w, 'latin_1')
+        bad = fault_from_message(kind, good_message(ctx.rng_global('canary'), 'latin_1', 0), cfg, 'latin_1') if kind in FROM_MESSAGE \
+            else faulty_wire(kind, w, 'latin_1')
         try:
             ref.decode_strict(bad, cfg, 'latin_1')
             rejected = False
@@ -343,12 +377,22 @@ def canaries(ctx):
             rejected = True
         ctx.canary('fault really is a fault: ' + kind, rejected)
     ctx.canary('good message decodes', ref.decode_strict(w, cfg, 'latin_1')['DE71'] == 1)
+    try:
+        b'\xb1\xc2\xf3\xf4'.decode('ascii')
+        undec = False
+    except UnicodeDecodeError:
+        undec = True
+    ctx.canary('the ascii MTI fault cannot be decoded', undec)
+    u = max(b for b in range(2, 128) if str(b) not in cfg)
+    ctx.canary('an unconfigured element exists above the elements of the ordinary records', u > 72)
 
 
 def require(m):
     reasons = []
     if set(m['classes'].get('fault kinds', ())) != set(KINDS):
         reasons.append('fault kinds not all driven')
+    if set(m['classes'].get('codecs', ())) != set(ENCS):
+        reasons.append('codecs not all driven')
     if set(m['classes'].get('consumption styles', ())) != set(CONSUME):
         reasons.append('consumption styles not all driven')
     if '40404040' not in set(m['classes'].get('oversized length values', ())):
